@@ -139,10 +139,19 @@ func genReplStream(g *gen, n int, tier string, w *bufio.Writer) {
 				fmt.Fprintf(w, "cutctx u%d\n", i)
 				fmt.Fprintf(w, "sleep %d\n", 80+g.intn(60))
 			}
+			fmt.Fprintf(w, "bgload %d %d\n", 600+g.intn(400), 10+g.intn(20)) // client writes while requests for a LIVE session arrive
+			fmt.Fprintf(w, "nackstorm h %d\n", 400+g.intn(300))
 			fmt.Fprintf(w, "flapstorm %d %d\n", 900+g.intn(300), 48)
+			fmt.Fprintln(w, "bgwait")
 			fmt.Fprintf(w, "load %d %d\n", 20+g.intn(40), 10)
 			fmt.Fprintln(w, "get 0")
 			fmt.Fprintln(w, "caughtup h 6000")
+			// every replica leaves; later another one (no compression support, like all fake streams) joins and writes go on
+			fmt.Fprintln(w, "cutctx h")
+			fmt.Fprintf(w, "sleep %d\n", 300+g.intn(200))
+			fmt.Fprintln(w, "stream z addr=z:1 start=1 ack=1")
+			fmt.Fprintf(w, "load %d %d\n", 10+g.intn(20), 10)
+			fmt.Fprintln(w, "caughtup z 8000")
 		case "ackchurn":
 			// several closed log files exist (so that every acknowledgement makes the retention pass look at files), two streams
 			// acknowledge everything they get while a client writes continuously, and further streams come and go (registering and
